@@ -138,8 +138,8 @@ LoadLeaf(v, T, pol) ==
   LET k == v[1] IN
   IF T = "null" THEN (IF k = "nil" THEN <<"val", <<"nil">>>> ELSE Mismatch(pol))
   ELSE IF k = "nil" THEN                                    \* null is "not loaded" for every other target ...
-       (IF pol.arch # "msgpack" /\ pol.mm = "throw" /\ T \notin (IntTypes \cup {"bool", "f32", "f64"})
-        THEN <<"any">>          \* ... text archives + ThrowError + non-fundamental target: not fixed by the properties (left open)
+       (IF pol.arch \notin {"msgpack", "json"} /\ pol.mm = "throw" /\ T \notin (IntTypes \cup {"bool", "f32", "f64"})
+        THEN <<"any">>          \* ... XML + ThrowError + non-fundamental target: left open (XML cannot tell null from empty)
         ELSE <<"skip">>)
   ELSE IF T \in IntTypes THEN
        IF k = "int" THEN (IF IntFits(v[2], v[3], T) THEN <<"val", v>> ELSE Overflow(pol))
@@ -214,7 +214,7 @@ RECURSIVE ExecObjOps(_, _, _, _, _), ExecArrOps(_, _, _, _, _, _)
 
 \* scope entry shared by obj/arr ops: v = the value under the key (or <<"absent">>)
 OpenKind(v, want, pol) ==      \* "enter" | "skip" | <<"err", code>> | <<"any">>
-  IF v[1] = "nil" /\ pol.arch # "msgpack" /\ pol.mm = "throw" THEN <<"any">>
+  IF v[1] = "nil" /\ pol.arch \notin {"msgpack", "json"} /\ pol.mm = "throw" THEN <<"any">>
   ELSE IF v[1] = "absent" \/ v[1] = "nil" THEN <<"skip">>
   ELSE IF v[1] = want THEN <<"enter">>
   ELSE Mismatch(pol)
